@@ -8,6 +8,10 @@ cd "$WT" || exit 2
 export CARGO_TARGET_DIR="$WT/target" CARGO_NET_OFFLINE=true
 OUT="$WT/SEED/confirm.log"
 mkdir -p "$WT/SEED"
+# the demonstration is a top-level integration test of the shuttle crate
+[ -f "shuttle/tests/$DEMO.rs" ] || cp "SEED/$DEMO.rs" "shuttle/tests/$DEMO.rs"
+git diff --quiet || true
+if git diff --quiet -- . ':!shuttle/tests'; then git apply SEED/patch.diff; fi
 {
 echo "== demo WITH the change (expected: fails)"
 cargo test -p shuttle --offline --test "$DEMO" -j4 -- --test-threads=2 2>&1 | grep -E "^test |test result|panicked" | head -20
